@@ -269,6 +269,17 @@ func genDoc(r *hx.Rng, o genOpts) Doc {
 	// smallest Y, and content runs past the page height. With o.mix every page has
 	// its own size and the slots keep their distance from that page's own edges.
 	xr := r.Fork(0xC11A) // all additional choices of o.mix come from this stream
+	// spacing typeset as glyphs on glyph-by-glyph pages (spaceGlyphs): drawn per document from
+	// a stream of its own. Direct documents only: a rendered PDF carries its glyphs through
+	// tabula's text extraction, which is not this property's business.
+	sr := r.Fork(0x5BACE)
+	var sp spacing
+	if !o.pdfSafe && sr.Chance(3, 4) {
+		sp = spacing{words: sr.Chance(1, 2), trailing: sr.Chance(1, 4), blank: sr.Chance(2, 3), marginPage: -1}
+		if sr.Chance(1, 3) {
+			sp.marginPage = sr.Intn(n) // a blank line inside a margin band, on one page only: it repeats nowhere
+		}
+	}
 	geoms := make([]pageGeom, n)
 	invTop, invBotExtra := 0, 0
 	if inverted {
@@ -575,6 +586,13 @@ func genDoc(r *hx.Rng, o genOpts) Doc {
 		}
 		if charPage[i] {
 			p = explode(p)
+			if sp.words || sp.trailing || sp.blank {
+				var what []string
+				p, what = spaceGlyphs(sr.Fork(uint64(i)), p, g, sp, i == sp.marginPage)
+				for _, w := range what {
+					tag(w)
+				}
+			}
 		}
 		doc.Pages = append(doc.Pages, p)
 	}
@@ -653,4 +671,82 @@ func explode(p Page) Page {
 		}
 	}
 	return q
+}
+
+// spacing says how a producer that typesets spacing as glyphs of its own sets the
+// glyph-by-glyph pages of one document.
+type spacing struct {
+	words      bool // the space between two words is a glyph " " of the line
+	trailing   bool // some lines end in a space glyph
+	blank      bool // empty paragraphs: lines made of nothing but 1-3 space glyphs, at free body positions
+	marginPage int  // on this page (-1: none) a blank line may also sit at a free slot of a margin band
+}
+
+// spaceGlyphs adds spacing glyphs to an exploded page. A word space or a trailing space
+// belongs to its line (it goes or stays with the line); a blank line is a logical line of
+// its own whose text is blank: it lies in the body band (or, on one page of the document
+// only, in a margin band where it repeats nowhere), so nothing in the statement lets it be
+// deleted, and it must not change what happens to any other line. Blank lines keep 14 pt
+// from every other line, like the lines of explode. The new glyphs go to random places of
+// the stream (stream order is not reading order).
+func spaceGlyphs(r *hx.Rng, p Page, g pageGeom, sp spacing, marginal bool) (Page, []string) {
+	var add []Frag
+	var what []string
+	for li, l := range p.Lines {
+		if sp.words {
+			for ci := 0; ci < len(l.T); ci++ {
+				if l.T[ci] == ' ' {
+					add = append(add, Frag{T: " ", X: l.X + 6*ci, Y: l.Y, W: 6, H: 12, FS: 12, L: li})
+					what = append(what, "space-glyphs:word")
+				}
+			}
+		}
+		if sp.trailing && r.Chance(1, 2) {
+			add = append(add, Frag{T: " ", X: l.X + 6*len(l.T), Y: l.Y, W: 6, H: 12, FS: 12, L: li})
+			what = append(what, "space-glyphs:trailing")
+		}
+	}
+	if sp.blank && len(p.Lines) > 0 {
+		free := func(y int) bool {
+			for _, l := range p.Lines {
+				if absInt(l.Y-y) < 14 {
+					return false
+				}
+			}
+			return true
+		}
+		ys := append([]int(nil), g.bodyYs...)
+		hx.Shuffle(r, ys)
+		if marginal {
+			ys = append([]int{hx.Pick(r, []int{g.hdr2.y, g.ftr2.y, g.hdr1.y, g.ftr1.y})}, ys...)
+		}
+		want := hx.Pick(r, []int{0, 1, 1, 1, 2, 3})
+		for _, y := range ys {
+			if want == 0 {
+				break
+			}
+			if !free(y) {
+				continue
+			}
+			k := hx.Pick(r, []int{1, 1, 1, 2, 3})
+			x := hx.Pick(r, []int{72, 72, 108, 300})
+			li := len(p.Lines)
+			p.Lines = append(p.Lines, LLine{T: strings.Repeat(" ", k), X: x, Y: y, H: 12})
+			for j := 0; j < k; j++ {
+				add = append(add, Frag{T: " ", X: x + 6*j, Y: y, W: 6, H: 12, FS: 12, L: li})
+			}
+			want--
+			what = append(what, "space-glyphs:blank-line")
+			if g.H-(y+12) < 72 || y < 72 {
+				what = append(what, "space-glyphs:blank-line-in-margin-band")
+			}
+		}
+	}
+	for _, f := range add {
+		k := r.Intn(len(p.F) + 1)
+		p.F = append(p.F, Frag{})
+		copy(p.F[k+1:], p.F[k:])
+		p.F[k] = f
+	}
+	return p, what
 }
